@@ -406,6 +406,11 @@ class ModuleVistor(NodeVisitor):
                         current.report("cannot re-export module "
                                        f"{ob.fullName()} from a module that is not a package", thresh=1)
                         return False
+                    # A root module or package has no parent it could be moved away from.
+                    if ob.parent is None:
+                        current.report("cannot re-export root module "
+                                       f"{ob.fullName()}", thresh=1)
+                        return False
                     # An object (package or module) cannot be moved inside itself.
                     container: Optional[model.Documentable] = current
                     while container is not None:
